@@ -8,9 +8,17 @@ use serde_json::json;
 use std::collections::HashSet;
 use vharness::{driver, Args, Known, Report, Rng};
 
+/// how an embedding value is spelled / typed when it is written (the model sees only its
+/// numeric components; every accepted representation must reach the same bookkeeping):
+/// 'f' all-float list literal `[1.0, 0.0]`, 'i' all-integer list literal `[1, 0]` (stays
+/// Array[Integer]), 'x' mixed `[1, 0.0]`, 'e' a list produced by an expression
+/// (`[x IN [1, 0] | x]`, SET only; CREATE falls back to 'i'), 'p' a query parameter `$v`
+/// holding Array[Integer], 'v' PropertyValue::Vector through GraphStore::set_node_property
+const REPRS: [char; 6] = ['f', 'i', 'x', 'e', 'p', 'v'];
+
 #[derive(Clone, Debug)]
 enum VV {
-    Vec(Vec<i32>),
+    Vec(Vec<i32>, char),
     Null,
     Scalar,
 }
@@ -18,13 +26,16 @@ enum VV {
 #[derive(Clone, Debug)]
 enum Op {
     MkIndex(usize, char), // dimension, 'c' cosine | 'l' l2 (Cypher DDL) | 'i' inner product (store API)
-    Create(bool, Option<Vec<i32>>),
+    Create(bool, Option<(Vec<i32>, char)>),
     SetVec(usize, VV),
     RemoveVec(usize),
     AddL(usize),
     RemL(usize),
     Delete(usize),
     Query(usize, Vec<i32>),
+    /// GraphStore::rebuild_vector_index() — a no-op for the model (the entry list already is
+    /// what a rebuild produces)
+    Rebuild,
 }
 
 fn vec_txt(v: &[i32]) -> String {
@@ -33,19 +44,34 @@ fn vec_txt(v: &[i32]) -> String {
 fn vec_cypher(v: &[i32]) -> String {
     format!("[{}]", v.iter().map(|x| format!("{}.0", x)).collect::<Vec<_>>().join(", "))
 }
+/// the list literal / expression for a representation that is written inside the statement
+fn vec_spelled(v: &[i32], repr: char, in_create: bool) -> String {
+    let ints = format!("[{}]", v.iter().map(|x| x.to_string()).collect::<Vec<_>>().join(", "));
+    match repr {
+        'f' => vec_cypher(v),
+        'x' => format!(
+            "[{}]",
+            v.iter().enumerate().map(|(i, x)| if i == 0 { x.to_string() } else { format!("{}.0", x) }).collect::<Vec<_>>().join(", ")
+        ),
+        'e' if !in_create => format!("[x IN {} | x]", ints),
+        _ => ints,
+    }
+}
 
 /// driver text; `raws[j]` = the ids the implementation returned for the j-th query
 fn render(ops: &[Op], raws: Option<&[String]>) -> String {
     let mut j = 0;
     ops.iter()
+        .filter(|op| !matches!(op, Op::Rebuild))
         .map(|op| match op {
+            Op::Rebuild => String::new(),
             Op::MkIndex(d, m) => format!("x:{}.{}", d, m),
             Op::Create(l, v) => format!(
                 "n:{}:{}",
                 if *l { 1 } else { 0 },
-                v.as_ref().map(|v| vec_txt(v)).unwrap_or_else(|| "_".into())
+                v.as_ref().map(|(v, _)| vec_txt(v)).unwrap_or_else(|| "_".into())
             ),
-            Op::SetVec(h, VV::Vec(v)) => format!("s:{}:{}", h, vec_txt(v)),
+            Op::SetVec(h, VV::Vec(v, _)) => format!("s:{}:{}", h, vec_txt(v)),
             Op::SetVec(h, _) => format!("s:{}:_", h),
             Op::RemoveVec(h) => format!("r:{}", h),
             Op::AddL(h) => format!("a:{}", h),
@@ -66,6 +92,9 @@ fn canon(ops: &[Op]) -> String {
     ops.iter()
         .map(|op| match op {
             Op::SetVec(h, VV::Scalar) => format!("s:{}:#", h),
+            Op::Rebuild => "b".to_string(),
+            Op::Create(l, Some((v, r))) => format!("n:{}:{}@{}", if *l { 1 } else { 0 }, vec_txt(v), r),
+            Op::SetVec(h, VV::Vec(v, r)) => format!("s:{}:{}@{}", h, vec_txt(v), r),
             Op::Query(k, q) => format!("q:{}:{}", k, vec_txt(q)),
             other => render(std::slice::from_ref(other), None),
         })
@@ -76,6 +105,13 @@ fn canon(ops: &[Op]) -> String {
 fn parse_vec(s: &str) -> Option<Vec<i32>> {
     s.split(',').map(|x| x.parse().ok()).collect()
 }
+/// `1,0@i` -> ([1,0], 'i'); without a suffix the all-float literal
+fn parse_vec_repr(s: &str) -> Option<(Vec<i32>, char)> {
+    match s.split_once('@') {
+        Some((v, r)) => Some((parse_vec(v)?, r.chars().next()?)),
+        None => Some((parse_vec(s)?, 'f')),
+    }
+}
 fn parse_ops(s: &str) -> Option<Vec<Op>> {
     let mut out = vec![];
     for p in s.split(';') {
@@ -85,10 +121,14 @@ fn parse_ops(s: &str) -> Option<Vec<Op>> {
                 let (d, m) = a.split_once('.')?;
                 Op::MkIndex(d.parse().ok()?, m.chars().next()?)
             }
-            ["n", l, v] => Op::Create(*l == "1", if *v == "_" { None } else { Some(parse_vec(v)?) }),
+            ["b"] => Op::Rebuild,
+            ["n", l, v] => Op::Create(*l == "1", if *v == "_" { None } else { Some(parse_vec_repr(v)?) }),
             ["s", h, "_"] => Op::SetVec(h.parse().ok()?, VV::Null),
             ["s", h, "#"] => Op::SetVec(h.parse().ok()?, VV::Scalar),
-            ["s", h, v] => Op::SetVec(h.parse().ok()?, VV::Vec(parse_vec(v)?)),
+            ["s", h, v] => {
+                let (v, r) = parse_vec_repr(v)?;
+                Op::SetVec(h.parse().ok()?, VV::Vec(v, r))
+            }
             ["r", h] => Op::RemoveVec(h.parse().ok()?),
             ["a", h] => Op::AddL(h.parse().ok()?),
             ["u", h] => Op::RemL(h.parse().ok()?),
@@ -181,24 +221,80 @@ fn run_real(ops: &[Op]) -> (Vec<QObs>, Option<String>) {
             )),
             Op::Create(l, v) => {
                 let q = match v {
-                    Some(v) => format!("CREATE (:{} {{h: {}, v: {}}})", if *l { "L" } else { "M" }, next, vec_cypher(v)),
-                    None => format!("CREATE (:{} {{h: {}}})", if *l { "L" } else { "M" }, next),
+                    // through the store API, or as a parameter (CREATE property maps do not take
+                    // executor parameters): the node is created first, the vector written next
+                    Some((_, 'v')) | Some((_, 'p')) | None => format!("CREATE (:{} {{h: {}}})", if *l { "L" } else { "M" }, next),
+                    Some((v, r)) => {
+                        format!("CREATE (:{} {{h: {}, v: {}}})", if *l { "L" } else { "M" }, next, vec_spelled(v, *r, true))
+                    }
                 };
                 next += 1;
                 Some(q)
             }
-            Op::SetVec(h, VV::Vec(v)) => Some(format!("MATCH (n {{h: {}}}) SET n.v = {}", h, vec_cypher(v))),
+            Op::SetVec(h, VV::Vec(_, 'p')) => Some(format!("MATCH (n {{h: {}}}) SET n.v = $v", h)),
+            Op::SetVec(_, VV::Vec(_, 'v')) => Some(String::new()),
+            Op::SetVec(h, VV::Vec(v, r)) => Some(format!("MATCH (n {{h: {}}}) SET n.v = {}", h, vec_spelled(v, *r, false))),
             Op::SetVec(h, VV::Null) => Some(format!("MATCH (n {{h: {}}}) SET n.v = null", h)),
             Op::SetVec(h, VV::Scalar) => Some(format!("MATCH (n {{h: {}}}) SET n.v = 7", h)),
             Op::RemoveVec(h) => Some(format!("MATCH (n {{h: {}}}) REMOVE n.v", h)),
             Op::AddL(h) => Some(format!("MATCH (n {{h: {}}}) SET n:L", h)),
             Op::RemL(h) => Some(format!("MATCH (n {{h: {}}}) REMOVE n:L", h)),
             Op::Delete(h) => Some(format!("MATCH (n {{h: {}}}) DELETE n", h)),
+            Op::Rebuild => {
+                store.rebuild_vector_index();
+                continue;
+            }
             Op::Query(..) => None,
         };
         if let Some(q) = stmt {
-            let r = std::panic::catch_unwind(std::panic::AssertUnwindSafe(|| {
-                eng.execute_mut(&q, &mut store, "default").map(|_| ()).map_err(|e| e.to_string())
+            // the vector of this write and how it is to be handed over
+            let written: Option<(&Vec<i32>, char, usize)> = match op {
+                Op::Create(_, Some((v, r))) => Some((v, *r, next - 1)),
+                Op::SetVec(h, VV::Vec(v, r)) => Some((v, *r, *h)),
+                _ => None,
+            };
+            let r = std::panic::catch_unwind(std::panic::AssertUnwindSafe(|| -> Result<(), String> {
+                if !q.is_empty() {
+                    match written {
+                        Some((v, 'p', _)) if matches!(op, Op::SetVec(..)) => {
+                            // a parameter holding an all-integer list
+                            let ast = samyama::query::parse_query(&q).map_err(|e| e.to_string())?;
+                            let mut params = std::collections::HashMap::new();
+                            params.insert(
+                                "v".to_string(),
+                                PropertyValue::Array(v.iter().map(|x| PropertyValue::Integer(*x as i64)).collect()),
+                            );
+                            samyama::query::executor::MutQueryExecutor::new(&mut store, "default".to_string())
+                                .with_params(params)
+                                .execute(&ast)
+                                .map(|_| ())
+                                .map_err(|e| e.to_string())?;
+                        }
+                        _ => {
+                            eng.execute_mut(&q, &mut store, "default").map(|_| ()).map_err(|e| e.to_string())?;
+                        }
+                    }
+                }
+                if let (Some((v, 'p', h)), Op::Create(..)) = (written, op) {
+                    let ast = samyama::query::parse_query(&format!("MATCH (n {{h: {}}}) SET n.v = $v", h)).map_err(|e| e.to_string())?;
+                    let mut params = std::collections::HashMap::new();
+                    params.insert("v".to_string(), PropertyValue::Array(v.iter().map(|x| PropertyValue::Integer(*x as i64)).collect()));
+                    samyama::query::executor::MutQueryExecutor::new(&mut store, "default".to_string())
+                        .with_params(params)
+                        .execute(&ast)
+                        .map(|_| ())
+                        .map_err(|e| e.to_string())?;
+                }
+                if let Some((v, 'v', h)) = written {
+                    // PropertyValue::Vector through the store API (when the node exists)
+                    let id = store.all_nodes().iter().find(|n| n.get_property("h") == Some(&PropertyValue::Integer(h as i64))).map(|n| n.id);
+                    if let Some(id) = id {
+                        store
+                            .set_node_property("default", id, "v", PropertyValue::Vector(v.iter().map(|x| *x as f32).collect()))
+                            .map_err(|e| e.to_string())?;
+                    }
+                }
+                Ok(())
             }));
             match r {
                 Ok(Ok(())) => {}
@@ -307,7 +403,8 @@ fn nontrivial(ops: &[Op]) -> bool {
     for op in ops {
         match op {
             Op::MkIndex(d, _) => dim = Some(*d),
-            Op::Create(l, v) => nodes.push(Some((*l, v.clone()))),
+            Op::Rebuild => {}
+            Op::Create(l, v) => nodes.push(Some((*l, v.as_ref().map(|(v, _)| v.clone())))),
             Op::SetVec(h, vv) => {
                 if let Some(n) = nodes.get_mut(*h) {
                     if indexed(n, dim) {
@@ -315,7 +412,7 @@ fn nontrivial(ops: &[Op]) -> bool {
                     }
                     if let Some(x) = n {
                         x.1 = match vv {
-                            VV::Vec(v) => Some(v.clone()),
+                            VV::Vec(v, _) => Some(v.clone()),
                             _ => None,
                         };
                     }
@@ -364,15 +461,15 @@ fn nontrivial(ops: &[Op]) -> bool {
     false
 }
 
-fn small_letters(handles: usize, metric: char) -> Vec<Op> {
+fn small_letters(handles: usize, metric: char, reprs: (char, char)) -> Vec<Op> {
     let vs: [Vec<i32>; 3] = [vec![1, 0], vec![1, 1], vec![3, 0]];
-    let mut a = vec![Op::MkIndex(2, metric), Op::Create(false, Some(vec![1, 0]))];
+    let mut a = vec![Op::MkIndex(2, metric), Op::Create(false, Some((vec![1, 0], reprs.0)))];
     for v in &vs {
-        a.push(Op::Create(true, Some(v.clone())));
+        a.push(Op::Create(true, Some((v.clone(), reprs.0))));
     }
     for h in 0..handles {
-        a.push(Op::SetVec(h, VV::Vec(vec![1, 1])));
-        a.push(Op::SetVec(h, VV::Vec(vec![0, 2])));
+        a.push(Op::SetVec(h, VV::Vec(vec![1, 1], reprs.1)));
+        a.push(Op::SetVec(h, VV::Vec(vec![0, 2], reprs.0)));
         a.push(Op::SetVec(h, VV::Null));
         a.push(Op::RemoveVec(h));
         a.push(Op::AddL(h));
@@ -384,8 +481,8 @@ fn small_letters(handles: usize, metric: char) -> Vec<Op> {
 
 /// all histories up to `max_len` (a handle is addressed only once handed out), the query
 /// [1,0] k=5 after every statement and [1,2] k=1 at the end
-fn exhaustive(max_len: usize, metric: char, out: &mut Vec<Vec<Op>>) {
-    fn go(cur: &mut Vec<Op>, created: usize, max_len: usize, metric: char, out: &mut Vec<Vec<Op>>) {
+fn exhaustive(max_len: usize, metric: char, reprs: (char, char), out: &mut Vec<Vec<Op>>) {
+    fn go(cur: &mut Vec<Op>, created: usize, max_len: usize, metric: char, reprs: (char, char), out: &mut Vec<Vec<Op>>) {
         if !cur.is_empty() {
             let mut c = vec![];
             for op in cur.iter() {
@@ -399,18 +496,22 @@ fn exhaustive(max_len: usize, metric: char, out: &mut Vec<Vec<Op>>) {
         if cur.len() == max_len {
             return;
         }
-        for op in small_letters(created.min(2), metric) {
+        for op in small_letters(created.min(2), metric, reprs) {
             let c2 = created + matches!(op, Op::Create(..)) as usize;
             cur.push(op);
-            go(cur, c2, max_len, metric, out);
+            go(cur, c2, max_len, metric, reprs, out);
             cur.pop();
         }
     }
-    go(&mut vec![], 0, max_len, metric, out);
+    go(&mut vec![], 0, max_len, metric, reprs, out);
 }
 
 fn rand_vec(rng: &mut Rng, dim: usize) -> Vec<i32> {
     (0..dim).map(|_| rng.range(-4, 4) as i32).collect()
+}
+fn rand_repr(rng: &mut Rng) -> char {
+    // the all-integer literal is the common way to write a small test vector: weight it
+    *rng.pick(&['f', 'i', 'i', 'x', 'e', 'p', 'v'])
 }
 
 fn random_case(rng: &mut Rng) -> Vec<Op> {
@@ -430,19 +531,25 @@ fn random_case(rng: &mut Rng) -> Vec<Op> {
         let op = match rng.usize(20) {
             0..=5 => {
                 next += 1;
-                Op::Create(rng.chance(4, 5), if rng.chance(9, 10) { Some(rand_vec(rng, d)) } else { None })
+                Op::Create(rng.chance(4, 5), if rng.chance(9, 10) { Some((rand_vec(rng, d), rand_repr(rng))) } else { None })
             }
-            6..=9 => Op::SetVec(h, VV::Vec(rand_vec(rng, d))),
+            6..=9 => Op::SetVec(h, VV::Vec(rand_vec(rng, d), rand_repr(rng))),
             10 => Op::SetVec(h, if rng.chance(1, 2) { VV::Null } else { VV::Scalar }),
             11 => Op::RemoveVec(h),
             12 => Op::AddL(h),
             13 => Op::RemL(h),
             14 | 15 => Op::Delete(h),
-            16 => Op::MkIndex(dim, *rng.pick(&['c', 'l', 'i'])),
+            16 => {
+                if rng.chance(1, 2) {
+                    Op::MkIndex(dim, *rng.pick(&['c', 'l', 'i']))
+                } else {
+                    Op::Rebuild
+                }
+            }
             _ => Op::Query(1 + rng.usize(6), rand_vec(rng, dim)),
         };
-        let is_index = matches!(op, Op::MkIndex(..));
-        if !is_index || rng.chance(1, 8) {
+        let is_index = matches!(op, Op::MkIndex(..) | Op::Rebuild);
+        if !is_index || rng.chance(1, 4) {
             ops.push(op);
         }
     }
@@ -475,7 +582,8 @@ fn ranking_case(rng: &mut Rng) -> Vec<Op> {
     }
     for _ in 0..n {
         let x = v(rng);
-        ops.push(Op::Create(true, Some(x)));
+        let r = rand_repr(rng);
+        ops.push(Op::Create(true, Some((x, r))));
     }
     if !at_start {
         ops.push(Op::MkIndex(dim, metric));
@@ -483,12 +591,69 @@ fn ranking_case(rng: &mut Rng) -> Vec<Op> {
     for _ in 0..rng.usize(4) {
         let h = rng.usize(n);
         let x = v(rng);
-        ops.push(if rng.chance(2, 3) { Op::SetVec(h, VV::Vec(x)) } else { Op::Delete(h) });
+        let r = rand_repr(rng);
+        ops.push(if rng.chance(2, 3) { Op::SetVec(h, VV::Vec(x, r)) } else { Op::Delete(h) });
     }
     for k in [1, n.saturating_sub(1).max(1), n, n + 3] {
         let q = if rng.chance(1, 10) { vec![0; dim] } else { rand_vec(rng, dim) };
         ops.push(Op::Query(k, q));
     }
+    ops
+}
+
+/// every representation of the embedding crossed with every bookkeeping event: a few nodes
+/// written in one representation each, then one event on one of them — an update in another
+/// representation, a non-vector / null, REMOVE n.v, REMOVE n:L (+ SET n:L back), DELETE followed
+/// by a CREATE of another label that recycles the id, a wrong-dimension update, a rebuild — with a
+/// query before and after; the index is declared before or after the data
+fn repr_event_case(rng: &mut Rng) -> Vec<Op> {
+    let dim = 2 + rng.usize(2);
+    let metric = *rng.pick(&['c', 'l', 'c', 'l', 'i']);
+    let n = 2 + rng.usize(3);
+    let mut ops = vec![];
+    let before = rng.chance(1, 2);
+    if before {
+        ops.push(Op::MkIndex(dim, metric));
+    }
+    let r0 = *rng.pick(&REPRS);
+    for i in 0..n {
+        let r = if i == 0 { r0 } else { *rng.pick(&REPRS) };
+        ops.push(Op::Create(true, Some((rand_vec(rng, dim), r))));
+    }
+    if !before {
+        ops.push(Op::MkIndex(dim, metric));
+    }
+    let q = rand_vec(rng, dim);
+    ops.push(Op::Query(n + 1, q.clone()));
+    // the event hits node 0 (written as r0), so each (representation, event) pair is drawn directly
+    match rng.usize(9) {
+        0 => ops.push(Op::SetVec(0, VV::Vec(rand_vec(rng, dim), *rng.pick(&REPRS)))),
+        1 => ops.push(Op::SetVec(0, if rng.chance(1, 2) { VV::Null } else { VV::Scalar })),
+        2 => ops.push(Op::RemoveVec(0)),
+        3 => {
+            ops.push(Op::RemL(0));
+            ops.push(Op::Query(n + 1, q.clone()));
+            ops.push(Op::AddL(0));
+        }
+        4 => ops.push(Op::Delete(0)),
+        5 => {
+            ops.push(Op::Delete(0));
+            ops.push(Op::Query(n + 1, q.clone()));
+            ops.push(Op::Create(false, None)); // recycles the id under another label
+        }
+        6 => ops.push(Op::SetVec(0, VV::Vec(rand_vec(rng, dim + 1), *rng.pick(&REPRS)))),
+        7 => {
+            ops.push(Op::RemL(0));
+            ops.push(Op::Rebuild);
+        }
+        _ => {
+            ops.push(Op::Delete(0));
+            ops.push(Op::Create(false, Some((rand_vec(rng, dim), *rng.pick(&REPRS)))));
+            ops.push(Op::AddL(n));
+        }
+    }
+    ops.push(Op::Query(n + 1, q.clone()));
+    ops.push(Op::Query(1, rand_vec(rng, dim)));
     ops
 }
 
@@ -503,7 +668,8 @@ fn big_case(rng: &mut Rng) -> Vec<Op> {
     }
     let n = 132 + rng.usize(30);
     for _ in 0..n {
-        ops.push(Op::Create(true, Some(rand_vec(rng, dim))));
+        let r = *rng.pick(&['f', 'i', 'x']);
+        ops.push(Op::Create(true, Some((rand_vec(rng, dim), r))));
     }
     if !at_start {
         ops.push(Op::MkIndex(dim, metric));
@@ -512,7 +678,7 @@ fn big_case(rng: &mut Rng) -> Vec<Op> {
     for _ in 0..(10 + rng.usize(20)) {
         let h = rng.usize(n);
         ops.push(match rng.usize(6) {
-            0 | 1 => Op::SetVec(h, VV::Vec(rand_vec(rng, dim))),
+            0 | 1 => Op::SetVec(h, VV::Vec(rand_vec(rng, dim), rand_repr(rng))),
             2 => Op::Delete(h),
             3 => Op::RemoveVec(h),
             4 => Op::RemL(h),
@@ -568,25 +734,32 @@ fn main() {
 
     if args.replay.is_none() {
         let l = if args.thorough() { 4 } else { 3 };
-        exhaustive(l, 'c', &mut cases);
-        exhaustive(l, 'l', &mut cases);
-        exhaustive(l, 'i', &mut cases);
+        // (representation of creates and of the second update, representation of the first update)
+        exhaustive(l, 'c', ('f', 'i'), &mut cases);
+        exhaustive(l, 'l', ('i', 'x'), &mut cases);
+        exhaustive(l, 'i', ('i', 'f'), &mut cases);
+        exhaustive(l, 'c', ('i', 'v'), &mut cases);
         rep.exhaustive = true;
         rep.exhaustive_note = format!(
             "all histories of length <= {} (handles addressed only once handed out) over 19 letters (index declaration, 4 creates, \
-             per handle: 2 vector updates, null, REMOVE n.v, SET/REMOVE n:L, DELETE; 2 handles), for a cosine, an l2 and an inner-product index, \
-             with a query after every statement; plus PRNG histories, ranking batteries (every metric, k below/at/above the candidate count) \
+             per handle: 2 vector updates, null, REMOVE n.v, SET/REMOVE n:L, DELETE; 2 handles), for a cosine, an l2 and an inner-product index and four pairings of embedding representations, \
+             with a query after every statement; plus PRNG histories (embeddings written as float / integer / mixed list literals, list expressions, parameters, or \
+             PropertyValue::Vector through the store API), representation x bookkeeping-event batteries, ranking batteries (every metric, k below/at/above the candidate count) \
              and >128-entry cases (not exhaustive)",
             l
         );
         let mut rng = Rng::new(args.seed).fork();
-        let n_rand = if args.thorough() { 25_000 } else { 900 };
+        let n_rand = if args.thorough() { 25_000 } else { 600 };
         for _ in 0..n_rand {
             cases.push(random_case(&mut rng));
         }
-        let n_rank = if args.thorough() { 20_000 } else { 900 };
+        let n_rank = if args.thorough() { 20_000 } else { 600 };
         for _ in 0..n_rank {
             cases.push(ranking_case(&mut rng));
+        }
+        let n_repr = if args.thorough() { 25_000 } else { 1_000 };
+        for _ in 0..n_repr {
+            cases.push(repr_event_case(&mut rng));
         }
         let n_big = if args.thorough() { 150 } else { 5 };
         for _ in 0..n_big {
@@ -642,7 +815,8 @@ fn main() {
                     Op::MkIndex(_, 'i') => "op:index-inner-product",
                     Op::MkIndex(..) => "op:index-l2",
                     Op::Create(..) => "op:create",
-                    Op::SetVec(_, VV::Vec(_)) => "op:set-vector",
+                    Op::Rebuild => "op:rebuild",
+                    Op::SetVec(_, VV::Vec(..)) => "op:set-vector",
                     Op::SetVec(..) => "op:set-null-or-scalar",
                     Op::RemoveVec(_) => "op:remove-property",
                     Op::AddL(_) => "op:add-label",
@@ -679,7 +853,7 @@ fn main() {
                 rep.count("unexpected_error");
                 rep.spec_violation(
                     &known,
-                    "query-error",
+                    "vector-query-error",
                     &format!("query failed: {} in `{}`", o.err.clone().unwrap_or_default(), cn),
                     &body,
                 );
